@@ -189,6 +189,29 @@ class SDateTime:
     def __sub__(self, o):
         return STimedelta(days=self.ordinal - o.ordinal, microseconds=self.us - o.us)
 
+    def replace(self, tzinfo=None):
+        r = SDateTime(ordinal=self.ordinal, us=self.us)
+        r.tzinfo = tzinfo
+        return r
+
+    def astimezone(self, tz):
+        """the contract of datetime.astimezone(UTC): the same instant expressed in UTC, OverflowError outside [MINYEAR, MAXYEAR]"""
+        off = self.tzinfo.utcoffset(self)
+        tot = self.ordinal * 86400 * 10 ** 6 + self.us - ((off.days * 86400 + off.seconds) * 10 ** 6 + off.microseconds)
+        r = SDateTime(ordinal=tot // (86400 * 10 ** 6), us=tot % (86400 * 10 ** 6))      # raises OverflowError outside the range
+        r.tzinfo = tz
+        return r
+
+
+class STz:
+    """datetime.timezone(timedelta(seconds=off)) by contract"""
+
+    def __init__(self, off):
+        self.off = off
+
+    def utcoffset(self, dt):
+        return STimedelta(seconds=self.off)
+
 
 class _SMin:
     year = 1
@@ -216,7 +239,8 @@ def _inject():
     import pyoda_time._local_date as m1
     import pyoda_time._local_date_time as m2
     import pyoda_time.utility._csharp_compatibility as m3
-    for m in (m1, m2, m3):
+    import pyoda_time._instant as m4
+    for m in (m1, m2, m3, m4):
         m.datetime = _StubDatetimeModule
     stubs.STUBS_IN_FORCE.append("contract:datetime.date/datetime/timedelta modelled by ordinal + microsecond-of-day in _local_date, _local_date_time, "
                                 "_csharp_compatibility (CPython agreement of the model is validated on every witness concretely)")
@@ -334,3 +358,28 @@ def premise_stub_matches_cpython(P):
     except (ValueError, OverflowError):
         pass
     return (not bad), (f"mismatches: {bad}" if bad else "model and real conversions agree with CPython at range ends and grid points")
+
+
+@lemma({"o": int, "us": int, "off": int}, params=["stub"], budget=120, per_path=40,
+       bounds="every aware datetime (any ordinal 1..3652059, any microsecond of day, any UTC offset strictly inside +-24h, through the stdlib "
+              "contract model): Instant.from_aware_datetime is exactly local value - offset, in nanoseconds from the Unix epoch - including the "
+              "first hours of the datetime range, whose UTC equivalent lies in year 0; a UTC equivalent in year 10000 is beyond Instant's range and is refused")
+def instant_from_aware_datetime(P):
+    _inject()
+    from pyoda_time import Instant
+
+    def h(o, us, off):
+        assume(1 <= o <= MAX_ORD)
+        assume(0 <= us < 86400 * 10 ** 6)
+        assume(-86400 < off < 86400)
+        dt = SDateTime(ordinal=o, us=us)
+        dt.tzinfo = STz(off)
+        want = ((o - EPOCH_ORD) * 86400 * 10 ** 6 + us - off * 10 ** 6) * 1000
+        lo = Instant._MIN_DAYS * 86400 * 10 ** 9
+        hi = (Instant._MAX_DAYS + 1) * 86400 * 10 ** 9 - 1
+        try:
+            t = Instant.from_aware_datetime(dt)._time_since_epoch
+        except (OverflowError, ValueError):
+            return not lo <= want <= hi           # only an instant beyond Instant's own range (year 10000) may be refused
+        return lo <= want <= hi and t._floor_days * 86400 * 10 ** 9 + t._nanosecond_of_floor_day == want
+    return h
